@@ -238,3 +238,29 @@ def compiled_run_multi(nsteps=5, seed=0):
         return dict(failed=True, observed={k: [hex(x) for x in (bad[k][0] or [])]},
                     expected={k: [hex(x) for x in bad[k][1]]})
     return dict(failed=False, observed='ok', expected='ok')
+
+
+def pass_preserves(design, simname='Simulation', pre=('optimize',), seed=0, nsteps=40):
+    """the design before and after the passes, same stimuli, same (default) initial state: identical Output traces"""
+    import pyrtl
+    from fam import designs, passes
+    block = designs.build(design)
+    steps = stimuli(block, seed, nsteps)
+    outs = sorted(w.name for w in block.wirevector_subset(pyrtl.Output))
+    sim = getattr(pyrtl, simname)(tracer=pyrtl.SimulationTrace(block=block), block=block)
+    for s_ in steps:
+        sim.step(dict(s_))
+    ref = {n: list(sim.tracer.trace[n]) for n in outs}
+    block2 = designs.build(design)
+    for p_ in pre:
+        block2, _ = passes.get(p_)(block2)
+    ins2 = set(w.name for w in block2.wirevector_subset(pyrtl.Input))
+    sim2 = getattr(pyrtl, simname)(tracer=pyrtl.SimulationTrace(block=block2), block=block2)
+    for s_ in steps:
+        sim2.step({k: v for k, v in s_.items() if k in ins2})
+    got = {n: list(sim2.tracer.trace[n]) for n in outs}
+    for n in outs:
+        if got[n] != ref[n]:
+            t = [i for i, (x, y) in enumerate(zip(got[n], ref[n])) if x != y][0]
+            return dict(failed=True, observed=dict(output=n, cycle=t, after_passes=got[n][t]), expected=ref[n][t])
+    return dict(failed=False, observed='ok', expected='ok')
